@@ -1,4 +1,5 @@
 import AgdbStorage.Model.Wal
+import AgdbStorage.Model.Storage
 /-
 Line-protocol driver helpers shared by the streams of this project.
 -/
@@ -61,5 +62,115 @@ def walStep (st : WalDrv) (toks : List String) : WalDrv × String :=
     let r := recover d
     ({ disk := some r }, s!"data={toHex r.data} wal={toHex r.wal}")
   | _, _ => (st, "bad-op")
+
+end AgdbStorage
+
+namespace AgdbStorage
+
+/-! ### stream `st`: the record allocator -/
+
+def fnvNat (h : UInt64) (n : Nat) : UInt64 := fnvBytes h (le8 n)
+
+def fnvCall (h : UInt64) : FsOp → UInt64
+  | .write pos bs => fnvChunk (fnvNat (fnvByte h 1) pos) bs
+  | .resize n => fnvNat (fnvByte h 2) n
+  | .flush => fnvByte h 3
+
+def callsDigest (calls : List FsOp) : String :=
+  s!"calls={calls.length} h={hex16 (calls.foldl fnvCall fnvInit)}"
+
+def resStr {α : Type} (f : α → String) : Except Err α → String
+  | .ok a => f a
+  | .error e => e.str
+
+def stTail (before after : Storage) : String :=
+  let calls := after.trace.drop before.trace.length
+  s!" len={after.len} txn={after.txn} {callsDigest calls}"
+
+def joinWith (sep : String) (xs : List String) : String := sep.intercalate xs
+
+def stDump (s : Storage) : String :=
+  let recs := joinWith "," (s.records.recs.map fun r => s!"{r.index}:{r.pos}:{r.size}")
+  let free := joinWith "," (s.records.free.map fun e => s!"{e.1}:{e.2}")
+  s!"len={s.len} txn={s.txn} recs={recs} free={free} dh={hex16 (fnvChunk fnvInit s.data)}"
+
+structure StDrv where
+  st : Option Storage := none
+
+def stStep (d : StDrv) (toks : List String) : StDrv × String :=
+  match toks, d.st with
+  | ["new"], _ =>
+    let s := Storage.create
+    ({ st := some s }, "ok" ++ stTail { s with trace := [] } s)
+  | _, none => (d, "bad-op")
+  | ["insert", hx], some s =>
+    match ofHex hx with
+    | some b =>
+      let (s', r) := s.insertBytes b
+      ({ st := some s' }, resStr (fun i => s!"ok idx={i}") r ++ stTail s s')
+    | none => (d, "bad-op")
+  | ["insert_at", i, off, hx], some s =>
+    match i.toNat?, off.toNat?, ofHex hx with
+    | some i, some off, some b =>
+      let (s', r) := s.insertBytesAt i off b
+      ({ st := some s' }, resStr (fun _ => "ok") r ++ stTail s s')
+    | _, _, _ => (d, "bad-op")
+  | ["move", i, f, t, n], some s =>
+    match i.toNat?, f.toNat?, t.toNat?, n.toNat? with
+    | some i, some f, some t, some n =>
+      let (s', r) := s.moveAt i f t n
+      ({ st := some s' }, resStr (fun _ => "ok") r ++ stTail s s')
+    | _, _, _, _ => (d, "bad-op")
+  | ["remove", i], some s =>
+    match i.toNat? with
+    | some i =>
+      let (s', r) := s.remove i
+      ({ st := some s' }, resStr (fun _ => "ok") r ++ stTail s s')
+    | none => (d, "bad-op")
+  | ["replace", i, hx], some s =>
+    match i.toNat?, ofHex hx with
+    | some i, some b =>
+      let (s', r) := s.replace i b
+      ({ st := some s' }, resStr (fun _ => "ok") r ++ stTail s s')
+    | _, _ => (d, "bad-op")
+  | ["resize", i, n], some s =>
+    match i.toNat?, n.toNat? with
+    | some i, some n =>
+      let (s', r) := s.resizeValue i n
+      ({ st := some s' }, resStr (fun _ => "ok") r ++ stTail s s')
+    | _, _ => (d, "bad-op")
+  | ["optimize"], some s =>
+    let (s', r) := s.optimize
+    ({ st := some s' }, resStr (fun _ => "ok") r ++ stTail s s')
+  | ["begin"], some s =>
+    let (s', id) := s.begin
+    ({ st := some s' }, s!"ok id={id}" ++ stTail s s')
+  | ["commit", id], some s =>
+    match id.toNat? with
+    | some id =>
+      let (s', r) := s.commit id
+      ({ st := some s' }, resStr (fun _ => "ok") r ++ stTail s s')
+    | none => (d, "bad-op")
+  | ["read", i], some s =>
+    match i.toNat? with
+    | some i => (d, resStr (fun b => s!"ok {toHex b}") (s.value i))
+    | none => (d, "bad-op")
+  | ["read_at", i, off, n], some s =>
+    match i.toNat?, off.toNat?, n.toNat? with
+    | some i, some off, some n => (d, resStr (fun b => s!"ok {toHex b}") (s.valueAtSize i off n))
+    | _, _, _ => (d, "bad-op")
+  | ["size", i], some s =>
+    match i.toNat? with
+    | some i => (d, resStr (fun n => s!"ok {n}") (s.valueSize i))
+    | none => (d, "bad-op")
+  | ["dump"], some s => (d, stDump s)
+  | ["data"], some s => (d, s!"data={toHex s.data}")
+  | ["reopen"], some s =>
+    if s.txn != 0 then (d, "bad-op")
+    else
+      match Storage.openImage s.data with
+      | .ok s' => ({ st := some s' }, "ok " ++ stDump s')
+      | .error e => (d, e.str)
+  | _, _ => (d, "bad-op")
 
 end AgdbStorage
